@@ -702,6 +702,33 @@ func (e *Engine) convert(from, to types.Type, x Value) Value {
 			if s.atom != nil {
 				return atomBytes(s.atom)
 			}
+			if eb, isB := sl.Elem().Underlying().(*types.Basic); isB && eb.Kind() == types.Int32 {
+				// []rune(s): decoded characters; the capacity is what the runtime's
+				// size classes give (slicing beyond the length is legal up to it)
+				var runes []Value
+				if cs, conc := concreteStr(s); conc {
+					for _, r := range cs {
+						runes = append(runes, mkInt(int64(r)))
+					}
+				} else {
+					for _, b := range s.bytes {
+						if e.decide(tCmp(">=", b, mkInt(128))) {
+							unsupported("[]rune of a string with a symbolic non-ASCII byte")
+						}
+						runes = append(runes, b)
+					}
+				}
+				c := runeSliceCap(len(runes))
+				av := &ArrayVal{elems: make([]Value, c)}
+				for i := range av.elems {
+					if i < len(runes) {
+						av.elems[i] = runes[i]
+					} else {
+						av.elems[i] = mkInt(0)
+					}
+				}
+				return SliceVal{arr: av, len: len(runes), cap: c}
+			}
 			elems := make([]Value, len(s.bytes))
 			for i, b := range s.bytes {
 				elems[i] = b
@@ -712,6 +739,23 @@ func (e *Engine) convert(from, to types.Type, x Value) Value {
 		switch v := x.(type) {
 		case SliceVal:
 			out := StrVal{}
+			if sl, isSl := fu.(*types.Slice); isSl {
+				if eb, isB := sl.Elem().Underlying().(*types.Basic); isB && eb.Kind() == types.Int32 {
+					// string([]rune): each character encoded
+					for _, r := range sliceElems(v) {
+						t := r.(*Term)
+						if t.konst {
+							out.bytes = append(out.bytes, mkStr(string(rune(t.iv))).bytes...)
+							continue
+						}
+						if e.decide(tOr(tCmp("<", t, mkInt(0)), tCmp(">=", t, mkInt(128)))) {
+							unsupported("string of a []rune with a symbolic non-ASCII character")
+						}
+						out.bytes = append(out.bytes, t)
+					}
+					return out
+				}
+			}
 			for _, b := range sliceElems(v) {
 				out.bytes = append(out.bytes, b.(*Term))
 			}
@@ -734,6 +778,19 @@ func (e *Engine) convert(from, to types.Type, x Value) Value {
 	}
 	unsupported("convert %v -> %v (%T)", from, to, x)
 	return nil
+}
+
+// runeSliceCap: the capacity the Go runtime gives []rune(s) for n characters
+// (4n bytes rounded up to the allocator's size class).
+func runeSliceCap(n int) int {
+	classes := []int{0, 8, 16, 24, 32, 48, 64, 80, 96, 112, 128, 144, 160, 176, 192, 208, 224, 240, 256, 288, 320, 352, 384, 416, 448, 480, 512, 576, 640, 704, 768, 896, 1024, 1152, 1280, 1408, 1536, 1792, 2048, 2304, 2688, 3072, 3200, 3456, 4096, 4864, 5376, 6144, 6528, 6784, 6912, 8192, 9472, 9728, 10240, 10880, 12288, 13568, 14336, 16384, 18432, 19072, 20480, 21760, 24576, 27264, 28672, 32768}
+	need := 4 * n
+	for _, c := range classes {
+		if c >= need {
+			return c / 4
+		}
+	}
+	return (need + 8191) / 8192 * 8192 / 4
 }
 
 func atomBytes(a *Atom) Value {
